@@ -8,7 +8,7 @@ of update-mask.md; getter/setter pairs address the same offset.
 T-corr: operation sequences (exhaustive to depth 3 over a representative alphabet per object kind, random to depth 40) on
 all 7 kinds x 3 expansions through the public typed setters; the mask inside a written SMSG_UPDATE_OBJECT must equal the
 model's wire form byte for byte."""
-import sys, os, re, itertools
+import sys, os, re, collections, itertools
 sys.path.insert(0, os.path.join(os.path.dirname(__file__), "..", "lib"))
 sys.path.insert(0, os.path.join(os.path.dirname(__file__), "..", "tools"))
 from vlib import *
@@ -114,6 +114,28 @@ def run(tier, seed):
                     hreq.append(f"um {exp} {kind} " + ",".join(sq_h))
                     dreq.append(f"umask {TYPE[kind]} " + ",".join(sq_d))
                     meta.append((exp, kind, ",".join(sq_h)))
+    # struct-valued accessors (visible items, skill infos): for EVERY index, several values with pairwise different members — the getter
+    # must return the value just set (mutable setter and builder); the member packing is the accessors' own business, their agreement is not
+    xreq, xmeta = [], []
+    for exp in ("vanilla", "tbc", "wrath"):
+        for (st, gt, sname, idx, fields) in umt.struct_accessors(exp):
+            for ix in range(0, 200):
+                for s_ in ([1, 77, rng.below(1 << 32)] if (ix < 3 or ix % 16 == 0 or tier != "quick") else [rng.below(1 << 32)]):
+                    xreq.append(f"umx {exp} {st} {ix} {s_}")
+                    xmeta.append((exp, st, sname, ix))
+    xo = run_parallel(har, xreq, jobs=12) if xreq else []
+    n_struct = n_struct_ok = 0
+    seen_idx = collections.Counter()
+    for (exp, st, sname, ix), rq, h in zip(xmeta, xreq, xo):
+        if h == "noindex":
+            continue
+        n_struct += 1
+        seen_idx[(exp, st)] = max(seen_idx[(exp, st)], ix + 1)
+        if h.startswith("ok get=1 getb=1 "):
+            n_struct_ok += 1
+        else:
+            rep.violation(f"C13/{exp}-Player/struct-accessor/{st}", f"{exp} UpdatePlayer::{st} at index {ix}: the getter does not return the {sname} that was just set: '{h[:120]}'",
+                          {"input": rq, "implementation": h[:600], "replay_cmd": f"echo '{rq}' | {har}"})
     ho = run_parallel(har, hreq, jobs=12)
     do = run_parallel(drv, dreq, jobs=12)
     n_ok = n_rt = n_rt_untyped = 0
@@ -142,7 +164,7 @@ def run(tier, seed):
         "checker_cmd": "cd /verif/lean && lake build WowVerif.Thm.C13; python3 /verif/tools/update_mask_tables.py",
         "trusted_base": TRUSTED_BASE_COMMON + ["the Vec<u32> bit-vector representation of header / dirty is abstracted to bit sets (tied by the byte-level correspondence)",
                                                "tools/update_mask_tables.py (regex extraction of accessors and of the published table)"],
-        "theorems": po["theorems"], "accessor_table_obligations": n_tab,
+        "theorems": po["theorems"], "accessor_table_obligations": n_tab, "struct_accessor_calls": n_struct, "struct_accessor_calls_ok": n_struct_ok, "struct_accessor_indices": {f"{k[0]}.{k[1]}": v for k, v in seen_idx.items()},
         "evaluations": len(hreq), "distinct_nontrivial": len(set(hreq)), "sequences_equal": n_ok, "written_forms_read_back": n_rt, "kinds": len(chosen),
         "rule": "per object kind and expansion: all operation sequences up to depth 3 (thorough 4) over {set a low/high, set b, set mid, set_guid, dirty_reset, mark_fully_dirty} plus random sequences of up to 40 operations over up to 28 typed setters; compared byte for byte with the model's wire form",
         "samples": [{"harness": hreq[i][:120], "implementation": ho[i][:100], "model": do[i][:100]} for i in (0, len(hreq) // 2, len(hreq) - 1)],
